@@ -697,10 +697,13 @@ def rule_cfg_defuse(ctx):
             elif k in ("Item::Struct", "Item::Enum", "Item::Type", "Item::Trait", "Item::Const", "Item::Static", "Item::Mod", "Item::Union"):
                 names = [it["ident"]["sym"]]
             elif k == "Item::Use":
+                vis = it.get("vis")
+                exported = vis is not None and A.kind(vis) not in (None, "Visibility::Inherited") and vis != "Visibility::Inherited"
                 for pre, leaf in _use_leaf_names(it["tree"]):
                     if pre and pre[0] in EXTERNAL_ROOTS:
                         external.add(leaf)
-                    elif leaf not in ("self", "_"):
+                    elif leaf not in ("self", "_") and exported:
+                        # only a `pub(..) use` makes a name available to others; a private `use` is itself a use
                         names.append(leaf)
             own = item_cfg(it) if k != "ImplItem::Fn" else TRUE
             for n in names:
